@@ -179,6 +179,10 @@ func unusualSpecs(rng *rand.Rand, n int) []struct {
 			desc = append(desc, "bluescale-just-outside-window")
 		case 1:
 			f.Private = append(f.Private, "/BlueScale 0.05 def", "/BlueShift 3 def", "/ForceBold true def", "/StdHW [33.3] def")
+		case 3:
+			f.Private = append(f.Private, "/StdVW [85] def") // a vertical standard stem width without a horizontal one
+		case 4:
+			f.Private = append(f.Private, "/StdHW [40] def /StdVW [85.5] def /BlueFuzz 0 def")
 		}
 		if h := dates[rng.Intn(len(dates))]; h != "" {
 			f.Header = []string{h}
